@@ -41,11 +41,10 @@ SPEC = {
                   "the JSON round-trip premise; every other request is answered 4xx with the bucket tree unchanged; a "
                   "body over the limit is refused whatever it contains; a 4xx answer never changes the tree and a 2xx "
                   "answer is only given after a successful write (for ANY tree); no request is answered 5xx (writes of "
-                  "two-component names into a two-level tree cannot collide). One deviation of the real code is proved as "
-                  "C12_null_program_refuted, reproduced by the suite and listed as a known finding.",
-    "level_note": "Known finding (real code): null-program-5xx: a JSON null inside Programs is dereferenced by validate; "
-                  "the Recover middleware turns the panic into 500 (nothing is stored). The positive theorems exclude "
-                  "exactly this class (executable predicate null_program_reached). Not modelled: JSON parsing itself, "
+                  "two-component names into a two-level tree cannot collide; a null program entry is refused like any "
+                  "other unapproved content, fix b5cf921).",
+    "level_note": "No known finding left (null-program-5xx is fixed in /repo by b5cf921 and is an ordinary violation "
+                  "class of the oracle again). Not modelled: JSON parsing itself, "
                   "semver, float formatting (oracles; the real answers are supplied per case by the harness), the "
                   "Timeout middleware (503 after 10 minutes; wall clock), the Log middleware, HTTP transport (the handler "
                   "is called through httptest.ResponseRecorder: no chunking, no Expect: 100-continue, no aborted "
